@@ -109,7 +109,6 @@ func raceChecks() []check {
 		expect("race: lock-protected accesses silent (unbounded)", 99, lockedPair, false),
 		expect("race: channel-ordered accesses silent (unbounded)", 99, chanOrdered, false),
 		expect("race: WaitGroup Add concurrent with blocking Wait reported", 2, wgMisuse, true),
-
 	}
 }
 
